@@ -113,14 +113,19 @@ def rand_cty(r, depth):
 _counter = [0]
 
 
-def rand_struct(r, depth):
+def rand_struct(r, depth, base=None):
+    """a generated struct class; with `base` = (type string, class) a struct that *extends* that one (its fields
+    follow the inherited ones)"""
     from zigpy_zboss.types.cstruct import CStruct
-    n = r.randrange(1, 6)
+    n = r.randrange(1, 6) if base is None else r.randrange(1, 4)
     fields = [rand_cty(r, depth) for _ in range(n)]
     _counter[0] += 1
-    ann = {"f%d" % i: f[1] for i, f in enumerate(fields)}
-    cls = type("VStruct%d" % _counter[0], (CStruct,), {"__annotations__": ann, "__module__": __name__})
-    return ("S(" + ",".join(f[0] for f in fields) + ")", cls)
+    k0 = 0 if base is None else 100
+    ann = {"f%d" % (k0 + i): f[1] for i, f in enumerate(fields)}
+    cls = type("VStruct%d" % _counter[0], (CStruct,) if base is None else (base[1],),
+               {"__annotations__": ann, "__module__": __name__})
+    inner = ([] if base is None else [base[0][2:-1]]) + [f[0] for f in fields]
+    return ("S(" + ",".join(inner) + ")", cls)
 
 
 def rand_cval(r, cls):
@@ -150,15 +155,27 @@ def cval_str(v):
         return "S(" + ",".join(cval_str(getattr(v, f.name)) for f in v.fields) + ")"
     if isinstance(v, (zt.EUI64, zt.KeyData)):
         return "x" + v.serialize().hex()
+    if v is None:
+        return "unset"
     return "n%d" % int(v)
 
 
 def run_cstruct(ctx):
     r = ctx.rng
     lines, metas = [], []
+    todo = []
     for _ in range(ctx.scale(80, 2500)):
-        ty, cls = rand_struct(r, r.choice([0, 1, 2, 3]))
-        for al in (False, True):
+        b = rand_struct(r, r.choice([0, 1, 2, 3]))
+        todo.append(b)
+        if r.random() < 0.3:
+            # a struct extending the previous one, used after its base (and, half of the time, in the other mode first)
+            todo.append(rand_struct(r, r.choice([0, 1]), base=b) + (r.random() < 0.5,))
+    for item in todo:
+        ty, cls = item[0], item[1]
+        modes = (True, False) if len(item) > 2 and item[2] else (False, True)
+        if len(item) > 2:
+            ctx.count("cstruct:extends-another")
+        for al in modes:
             size, align = cls.get_size(align=al), cls.get_alignment(align=al)
             offs, off = [], 0
             fields = []
@@ -167,7 +184,12 @@ def run_cstruct(ctx):
                 fields.append((off + padding, sz, f.get_size_and_alignment(align=al)[1]))
                 off += padding + sz
             vs, inst = rand_cval(r, cls)
-            raw = inst.serialize(align=al)
+            try:
+                raw = inst.serialize(align=al)
+            except Exception as ex:
+                ctx.counterexample("struct-not-inverse", dict(struct=ty, align=al, value=vs), "an encoding",
+                                   "%s: %s" % (type(ex).__name__, ex), "a valid struct value cannot be serialized")
+                continue
             suffix = bytes(r.getrandbits(8) for _ in range(r.choice([0, 2, 5])))
             lines += ["clayout %d %s" % (al, ty), "cenc %d %s %s" % (al, ty, vs), "cdec %d %s %s" % (al, ty, hx(raw + suffix))]
             cut = r.randrange(0, len(raw))
@@ -196,6 +218,9 @@ def run_cstruct(ctx):
             impl = "ok %s rest=%s" % (cval_str(back), hx(rest))
             if back != inst or rest != suffix:
                 ctx.counterexample("struct-not-inverse", inp, vs, impl, "struct decode(encode(v)+suffix) != (v, suffix)")
+            if len(raw) != cls.get_size(align=al):
+                ctx.counterexample("struct-not-inverse", inp, cls.get_size(align=al), len(raw),
+                                   "the encoding does not have the size the struct declares")
         except ValueError:
             impl = "err valueError"
             ctx.counterexample("struct-not-inverse", inp, vs, impl, "struct rejects its own encoding")
@@ -216,6 +241,63 @@ def run_cstruct(ctx):
                 ctx.mismatch("cdec", inp, a[2], impl)
             if a[3] != impl_cut:
                 ctx.mismatch("cdec-cut", dict(inp, cut=cut), a[3], impl_cut)
+
+
+def _mutate_leaf(r, inst):
+    """change one leaf of a (possibly nested) struct instance *in place*; returns a description or None"""
+    from zigpy_zboss.types.cstruct import CStruct
+    import zigpy.types as zt
+    f = r.choice(list(inst.fields))
+    v = getattr(inst, f.name)
+    if isinstance(v, CStruct):
+        d = _mutate_leaf(r, v)
+        return None if d is None else f.name + "." + d
+    if isinstance(v, (zt.EUI64, zt.KeyData)):
+        v[0] = zt.uint8_t((int(v[0]) + 1) % 256)        # element of a list-like field, in place
+        return f.name + "[0]"
+    if isinstance(v, int):
+        lo, hi = gen.int_bounds(f.type)
+        nv = f.type(hi if int(v) != hi else lo)
+        setattr(inst, f.name, nv)
+        return f.name
+    return None
+
+
+def run_mutation(ctx):
+    """A struct value that is serialized, changed in place (a nested field, an element of an address field, a direct
+    assignment) and serialized again: the second encoding must be the encoding of the value it has then
+    (oracle: the Lean struct codec on the values read back from the instance)."""
+    r = ctx.rng
+    lines, metas = [], []
+    for _ in range(ctx.scale(60, 1500)):
+        ty, cls = rand_struct(r, r.choice([1, 2, 2, 3]))
+        al = r.random() < 0.5
+        _vs, inst = rand_cval(r, cls)
+        first = inst.serialize(align=al)
+        what = []
+        for _k in range(r.randrange(1, 4)):
+            d = _mutate_leaf(r, inst)
+            if d:
+                what.append(d)
+        if not what:
+            continue
+        second = inst.serialize(align=al)
+        now = cval_str(inst)
+        lines.append("cenc %d %s %s" % (al, ty, now))
+        metas.append((ty, al, what, now, first, second, inst, cls))
+    ans = ctx.driver.ask(lines) if ctx.driver else [None] * len(lines)
+    for (ty, al, what, now, first, second, inst, cls), a in zip(metas, ans):
+        inp = dict(struct=ty, align=al, changed_in_place=what, value_now=now)
+        ctx.case(("mut", ty, al, now), sample=dict(struct=ty, align=al, changed=what, bytes=hx(second)[:40]))
+        ctx.count("cstruct:mutated-in-place")
+        # implementation-only oracle: a fresh instance built from the current field values
+        fresh = cls(**{f.name: getattr(inst, f.name) for f in cls.fields}).serialize(align=al)
+        want = bytes.fromhex(a[3:]) if (a and a.startswith("ok ") and a[3:] != "-") else fresh
+        if second != want:
+            ctx.counterexample("struct-stale-encoding", inp, hx(want), hx(second),
+                               "after an in-place change the struct serializes to the encoding of its earlier value")
+        elif a and a.startswith("ok ") and fresh != want:
+            ctx.mismatch("cenc-mutated", inp, a, "ok " + hx(fresh))
 
 
 def run_structlists(ctx):
@@ -339,6 +421,7 @@ def run(ctx):
                 "of 0..5 records in the read layout; non-trivial as noted per case; distinct by bytes")
     run_wire(ctx)
     run_cstruct(ctx)
+    run_mutation(ctx)
     run_structlists(ctx)
     run_nvram(ctx)
 
